@@ -532,9 +532,14 @@ pub fn round_c03(rt: &tokio::runtime::Runtime, hooks: &Hooks, seed: u64) -> Valu
     let per_app = 10 + rng.below(60);
     let pre_start = rng.chance(700); // appenders begin before read() is called
 
-    // history (single writer)
+    // history (single writer); in some rounds interleaved with time:1ms frames that are expired (virtual clock)
+    // but not yet collected when the follower starts: they are not delivered, and what follows them is
+    let with_expired = rng.chance(300);
     let mut hist_ids: Vec<(u128, u128)> = vec![(ctx_a.to_u128(), 0)];
     for i in 0..hist {
+        if with_expired && i % 7 == 3 {
+            let _ = store.append(Frame::builder("h", if i % 2 == 0 { ctx_a } else { ZERO_CONTEXT }).meta(json!({"expired": i})).ttl(TTL::Time(Duration::from_millis(1))).build());
+        }
         let ctx = if i % 2 == 0 { ctx_a } else { ZERO_CONTEXT };
         let ttl = if i % 11 == 5 { Some(TTL::Ephemeral) } else { None };
         let f = store.append(Frame::builder("h", ctx).meta(json!({"h": i})).maybe_ttl(ttl.clone()).build()).unwrap();
@@ -556,6 +561,10 @@ pub fn round_c03(rt: &tokio::runtime::Runtime, hooks: &Hooks, seed: u64) -> Valu
         }
     }
     let tail = start_kind == "tail";
+    if with_expired {
+        let now = std::time::SystemTime::now().duration_since(std::time::UNIX_EPOCH).unwrap().as_millis() as u64;
+        xs::verif::set_now(Some(now + 60_000));
+    }
 
     let directed = rng.chance(400);
     let rule = if directed {
@@ -854,6 +863,7 @@ pub fn round_c03(rt: &tokio::runtime::Runtime, hooks: &Hooks, seed: u64) -> Valu
         violation(&mut out, &["C11"], "store/synthetic-frame-was-stored", json!({"count": stored_synth}));
     }
     let both = rid.iter().filter(|i| u.contains(i)).count();
+    xs::verif::set_now(None);
     crate::session::rm_dir(&dir);
     json!({
         "mode": "c03",
@@ -869,7 +879,7 @@ pub fn round_c03(rt: &tokio::runtime::Runtime, hooks: &Hooks, seed: u64) -> Valu
         "violations": out,
         "inconclusive": inconclusive,
         "nontrivial": !u.is_empty() || (!p.is_empty() && q.len() > 1),
-        "shape": format!("hist={}/{}/{}", hist, if scope.is_some() { "ctx" } else { "all" }, start_kind),
+        "shape": format!("hist={}/{}/{}{}", hist, if scope.is_some() { "ctx" } else { "all" }, start_kind, if with_expired { "/expired-in-history" } else { "" }),
     })
 }
 
